@@ -73,8 +73,9 @@ def annotate_half(R, func, loop, axis, other_loops):
     aug = [s for s in has if isinstance(s, ast.AugAssign) and chain(s.target) == [cvar, axis] and isinstance(s.op, ast.Add)]
     if aug and len(has) == 1:
         ok = singleton(aug[0].value)
+    appends_nothing = not any(isinstance(n, (ast.Call, ast.AugAssign, ast.Assign)) for st in has for n in ast.walk(st))
     R.check(ok, 'LABELLING', func, has[0] if has else br, f'{slot}: existing label gets exactly this element appended',
-            f'{cvar}.{axis}.append({x})', src(has) if has else 'nothing')
+            f'{cvar}.{axis}.append({x})', src(has) if has else 'nothing', strict=True if (appends_nothing or (apps and len(has) == 1)) else None)
     creates = [s for s in new if isinstance(s, ast.Assign) and chain(s.targets[0]) == [cvar, axis]]
     ok = len(creates) == 1 and singleton(creates[0].value) and isinstance(creates[0].value, ast.List)
     R.check(ok, 'LABELLING', func, creates[0] if creates else br, f'{slot}: first element creates a fresh per-concept list',
@@ -186,7 +187,7 @@ def run(model, R):
                 pats = list(bitalg.patterns(['a', 'e']))
                 spec = bitalg.Pred(lambda occ: all(not (r['a'] and not r['e']) for r in occ if not r[bitalg.OUTSIDE]), 'a <= e')
                 diff = bitalg.equivalent(pred, spec, pats)
-                R.check(diff is None, 'ATOMS', init, g.ifs[0], 'atom listed iff its extent is below the concept\'s', 'a <= e', pred.text,
+                R.decided(diff is None, 'ATOMS', init, g.ifs[0], 'atom listed iff its extent is below the concept\'s', 'a <= e', pred.text,
                         extra={'rows': [{k: r[k] for k in ('a', 'e')} for r in diff] if diff else None})
             except (Unrecognised, bitalg.SortError) as e:
                 R.unknown('ATOMS', init, g.ifs[0], 'atom filter', str(e))
